@@ -159,6 +159,10 @@ def run_case(case):
         specs.append(spec)
     if case.get("pre_run"):
         specs.insert(0, {"timeline": [[0.3, ["data", rm.encode_frame(1, rm.TEXT, b"earlier")]]], "default_pong": 0.01})
+    if case.get("full_close"):
+        for sp in specs:
+            if isinstance(sp, dict):
+                sp["full_close"] = True  # the server's end of stream is a close() of its socket (later client writes meet a reset)
     sc = simpeers.Scenario(sched, net, specs, default="refused")
     problems = []
     orig_outcome = net.connect_outcome
@@ -437,7 +441,7 @@ def cases(draw):
             a["chatty"] = round(ping[1] * draw(st.sampled_from([0.3, 0.7])), 3)
         att.append(a)
     c = {"attempts": att, "interval": interval, "external": ext, "on_reconnect": draw(st.booleans()), "ping": ping, "run_for": 200.0, "via_global": draw(st.integers(0, 3)) == 0,
-         "pre_run": draw(st.integers(0, 3)) == 0,
+         "pre_run": draw(st.integers(0, 3)) == 0, "full_close": draw(st.integers(0, 2)) == 0,
          "secure": draw(st.integers(0, 3)) == 0}
     stop = draw(st.sampled_from(["server-close", "app-close", "app-close-any"]))
     if stop == "server-close":
